@@ -358,9 +358,12 @@ def copyLoop (B : Nat) : Nat → RSpec → Bytes → RSpec × Bytes
 
 /-! ## typed helpers -/
 
-/-- `Write<SizeType>(container)` with an unsigned prefix of `width` bytes: refuse instead of truncating -/
-def writePrefixed (width : Nat) (payload : Bytes) (count : Nat) : Except Err Bytes :=
-  if count > 2 ^ (8 * width) - 1 then .error .refused
+/-- largest value of a size prefix of `width` bytes (`std::numeric_limits<SizeType>::max()`) -/
+def prefixMax (width : Nat) (signed : Bool) : Nat := if signed then 2 ^ (8 * width - 1) - 1 else 2 ^ (8 * width) - 1
+
+/-- `Write<SizeType>(container)`: refuse instead of truncating (or, for a signed prefix, writing a negative size) -/
+def writePrefixed (width : Nat) (signed : Bool) (payload : Bytes) (count : Nat) : Except Err Bytes :=
+  if count > prefixMax width signed then .error .refused
   else .ok ((List.range width).map (fun i => UInt8.ofNat (count / 2 ^ (8 * i))) ++ payload)
 
 end Op2.Stream
